@@ -243,6 +243,121 @@ class Tr:
             raise bad
         return cls_tested, conv, strings, guard
 
+    # ---------------------------------------------------------------- integer setters
+    def int_setter(self, cls, name, key):
+        """if isinstance(x, int) and x > C: cfg[..][K] = x / else: raise   ->  exclusive lower bound C"""
+        fn = self.method(cls, name, setter=True)
+        arg = fn.args.args[1].arg
+        body = [s for s in fn.body if not (isinstance(s, ast.Expr) and isinstance(s.value, ast.Constant))]
+        bad = Unsupported("{}: setter {} is not of the shape `if isinstance(x, int) and x > c: store "
+                          "else: raise`".format(where(fn, PATH), name))
+        if len(body) != 1 or not isinstance(body[0], ast.If):
+            raise bad
+        i1 = body[0]
+        t = i1.test
+        if not (isinstance(t, ast.BoolOp) and isinstance(t.op, ast.And) and len(t.values) == 2):
+            raise bad
+        a, b = t.values
+        if not (isinstance(a, ast.Call) and isinstance(a.func, ast.Name) and a.func.id == "isinstance"
+                and len(a.args) == 2 and isinstance(a.args[0], ast.Name) and a.args[0].id == arg
+                and isinstance(a.args[1], ast.Name) and a.args[1].id == "int"):
+            raise bad
+        if not (isinstance(b, ast.Compare) and len(b.ops) == 1 and isinstance(b.left, ast.Name)
+                and b.left.id == arg and isinstance(b.comparators[0], ast.Constant)
+                and isinstance(b.comparators[0].value, int)
+                and not isinstance(b.comparators[0].value, bool)):
+            raise bad
+        c = b.comparators[0].value
+        if isinstance(b.ops[0], ast.Gt):
+            lower = c
+        elif isinstance(b.ops[0], ast.GtE):
+            lower = c - 1
+        else:
+            raise bad
+        if len(i1.body) != 1 or not isinstance(i1.body[0], ast.Assign) or \
+                not (isinstance(i1.body[0].value, ast.Name) and i1.body[0].value.id == arg):
+            raise bad
+        tgt = i1.body[0].targets[0]
+        keys = []
+        while isinstance(tgt, ast.Subscript):
+            keys.insert(0, lit_name(tgt.slice))
+            tgt = tgt.value
+        if "/".join(keys) != key:
+            raise Unsupported("{}: setter {} writes option {}".format(where(fn, PATH), name, "/".join(keys)))
+        if len(i1.orelse) != 1 or not isinstance(i1.orelse[0], ast.Raise):
+            raise bad
+        return lower
+
+    # ---------------------------------------------------------------- plot dimensions
+    def plot_setter(self, cls):
+        """if not isinstance(x, tuple) or len(x) != N: raise
+           if any(not isinstance(num, (int, float)) or <num <= c | not num > c> for num in x): raise
+           cfg[K] = x"""
+        fn = self.method(cls, "plot_dimensions", setter=True)
+        arg = fn.args.args[1].arg
+        body = [s for s in fn.body if not (isinstance(s, ast.Expr) and isinstance(s.value, ast.Constant))]
+        bad = Unsupported("{}: plot_dimensions setter is not of the shape tuple-of-N / all numbers "
+                          "positive / store".format(where(fn, PATH)))
+        if len(body) != 3 or not all(isinstance(s, ast.If) for s in body[:2]) or \
+                not isinstance(body[2], ast.Assign):
+            raise bad
+        for s in body[:2]:
+            if len(s.body) != 1 or not isinstance(s.body[0], ast.Raise) or s.orelse:
+                raise bad
+        t = body[0].test
+        if not (isinstance(t, ast.BoolOp) and isinstance(t.op, ast.Or) and len(t.values) == 2):
+            raise bad
+        a, b = t.values
+        if not (isinstance(a, ast.UnaryOp) and isinstance(a.op, ast.Not) and isinstance(a.operand, ast.Call)
+                and isinstance(a.operand.func, ast.Name) and a.operand.func.id == "isinstance"
+                and isinstance(a.operand.args[0], ast.Name) and a.operand.args[0].id == arg
+                and isinstance(a.operand.args[1], ast.Name) and a.operand.args[1].id == "tuple"):
+            raise bad
+        if not (isinstance(b, ast.Compare) and isinstance(b.ops[0], ast.NotEq)
+                and isinstance(b.left, ast.Call) and isinstance(b.left.func, ast.Name)
+                and b.left.func.id == "len" and isinstance(b.comparators[0], ast.Constant)
+                and isinstance(b.comparators[0].value, int)):
+            raise bad
+        length = b.comparators[0].value
+        t = body[1].test
+        if not (isinstance(t, ast.Call) and isinstance(t.func, ast.Name) and t.func.id == "any"
+                and len(t.args) == 1 and isinstance(t.args[0], ast.GeneratorExp)
+                and len(t.args[0].generators) == 1):
+            raise bad
+        g = t.args[0]
+        gen = g.generators[0]
+        if not (isinstance(gen.target, ast.Name) and isinstance(gen.iter, ast.Name)
+                and gen.iter.id == arg and not gen.ifs):
+            raise bad
+        num = gen.target.id
+        e = g.elt
+        if not (isinstance(e, ast.BoolOp) and isinstance(e.op, ast.Or) and len(e.values) == 2):
+            raise bad
+        a, b = e.values
+        if not (isinstance(a, ast.UnaryOp) and isinstance(a.op, ast.Not) and isinstance(a.operand, ast.Call)
+                and isinstance(a.operand.func, ast.Name) and a.operand.func.id == "isinstance"
+                and isinstance(a.operand.args[1], ast.Tuple)
+                and sorted(x.id for x in a.operand.args[1].elts if isinstance(x, ast.Name)) == ["float", "int"]):
+            raise bad
+
+        def cmp_const(c, op):
+            return (isinstance(c, ast.Compare) and len(c.ops) == 1 and isinstance(c.ops[0], op)
+                    and isinstance(c.left, ast.Name) and c.left.id == num
+                    and isinstance(c.comparators[0], ast.Constant)
+                    and isinstance(c.comparators[0].value, int)
+                    and not isinstance(c.comparators[0].value, bool))
+        if cmp_const(b, ast.LtE):               # num <= c     (nan <= c is False: NaN passes)
+            lower, rejects_nan = b.comparators[0].value, False
+        elif isinstance(b, ast.UnaryOp) and isinstance(b.op, ast.Not) and cmp_const(b.operand, ast.Gt):
+            lower, rejects_nan = b.operand.comparators[0].value, True     # not num > c
+        else:
+            raise bad
+        s = body[2]
+        if not (isinstance(s.value, ast.Name) and s.value.id == arg
+                and isinstance(s.targets[0], ast.Subscript) and lit_name(s.targets[0].slice) == "PLOT_DIMENSIONS"):
+            raise bad
+        return length, lower, rejects_nan
+
     # ---------------------------------------------------------------- use_mc_sample_size
     def temp_wrapper(self):
         fn = None
@@ -304,6 +419,8 @@ def gen():
     tr.enums()
     init, reset = {}, {}
     setters = {}
+    ints = {"sigValLower": 0, "mcSizeLower": 0}
+    plot = (2, 0, True)
     in_finally = False
     try:
         cls = tr.settings_class()
@@ -320,6 +437,17 @@ def gen():
                 setters[name] = tr.setter(cls, name)
             except Unsupported as e:
                 tr.broken.append(str(e))
+        for nm, (setter_name, key) in {"sigValLower": ("sig_fig_value", "SIG_FIGS/SIG_FIG_VALUE"),
+                                       "mcSizeLower": ("monte_carlo_sample_size",
+                                                       "MONTE_CARLO_SAMPLE_SIZE")}.items():
+            try:
+                ints[nm] = tr.int_setter(cls, setter_name, key)
+            except Unsupported as e:
+                tr.broken.append(str(e))
+        try:
+            plot = tr.plot_setter(cls)
+        except Unsupported as e:
+            tr.broken.append(str(e))
     except Unsupported as e:
         tr.broken.append(str(e))
     try:
@@ -376,6 +504,16 @@ def setterStrings : EnumTy → List String
 {ss}
   | .sigFigMode => []
 
+/-- integer setters `isinstance(x, int) and x > c`: the exclusive lower bound `c` -/
+def sigValLower : Int := {svl}
+def mcSizeLower : Int := {mcl}
+
+/-- `plot_dimensions` setter: required tuple length, exclusive lower bound of each entry, and
+    whether the comparison is written so that NaN is refused (`not num > c`) or passes (`num <= c`) -/
+def plotLen : Nat := {plen}
+def plotLower : Int := {plow}
+def plotRejectsNan : Bool := {pnan}
+
 /-- `Settings.__init__`: the state of a freshly started session -/
 def initCfg : Cfg := {{ {init} }}
 
@@ -391,5 +529,7 @@ end QExPy.Settings.Gen
            sc=arm(lambda own: "." + ENUMS[own], lambda s: "." + ENUMS[s[0]]),
            sv=arm(lambda own: "." + ENUMS[own], lambda s: "." + ENUMS[s[1]]),
            ss=arm(lambda own: "[]", lambda s: lean_strlist(s[2])),
-           init=init_txt, reset=reset_def, fin="true" if in_finally else "false")
+           init=init_txt, reset=reset_def, fin="true" if in_finally else "false",
+           svl="({})".format(ints["sigValLower"]), mcl="({})".format(ints["mcSizeLower"]),
+           plen=plot[0], plow="({})".format(plot[1]), pnan="true" if plot[2] else "false")
     return "Settings.lean", text, tr.broken
